@@ -18,6 +18,7 @@ import (
 	"github.com/ethereum/go-ethereum/common"
 	"github.com/ethereum/go-ethereum/core/rawdb"
 	"github.com/ethereum/go-ethereum/core/types"
+	"github.com/ethereum/go-ethereum/ethdb"
 	"github.com/ethereum/go-ethereum/rlp"
 	"github.com/ethereum/go-ethereum/trie"
 	"github.com/ethereum/go-ethereum/trie/trienode"
@@ -27,6 +28,63 @@ import (
 	"verif.local/kit/reftrie"
 	vs "verif.local/kit/stat"
 )
+
+// ---- disk wrapper: records what the node database writes and, with k > 1, makes
+// its batches report a k-fold ValueSize so that the "batch reached
+// ethdb.IdealBatchSize, write it out and start over" branches of Commit and Cap
+// are taken every few nodes instead of once per 100 KiB (the states here are a
+// few KiB). Contents and semantics of the store are unchanged. ----
+
+type c21Rec struct {
+	written map[common.Hash]struct{} // node keys written to disk since the last reset
+	flushes int                      // non-empty batch writes since the last reset
+}
+
+func (r *c21Rec) reset() { r.written, r.flushes = map[common.Hash]struct{}{}, 0 }
+
+type c21Batch struct {
+	ethdb.Batch
+	k       int
+	rec     *c21Rec
+	pending []common.Hash
+}
+
+func (b *c21Batch) Put(key, value []byte) error {
+	if len(key) == common.HashLength {
+		b.pending = append(b.pending, common.BytesToHash(key))
+	}
+	return b.Batch.Put(key, value)
+}
+func (b *c21Batch) ValueSize() int { return b.Batch.ValueSize() * b.k }
+func (b *c21Batch) Write() error {
+	if err := b.Batch.Write(); err != nil {
+		return err
+	}
+	if len(b.pending) > 0 {
+		b.rec.flushes++
+	}
+	for _, h := range b.pending {
+		b.rec.written[h] = struct{}{}
+	}
+	return nil
+}
+func (b *c21Batch) Reset() {
+	b.pending = b.pending[:0]
+	b.Batch.Reset()
+}
+
+type c21Disk struct {
+	ethdb.Database
+	k   int
+	rec *c21Rec
+}
+
+func (d c21Disk) NewBatch() ethdb.Batch {
+	return &c21Batch{Batch: d.Database.NewBatch(), k: d.k, rec: d.rec}
+}
+func (d c21Disk) NewBatchWithSize(size int) ethdb.Batch {
+	return &c21Batch{Batch: d.Database.NewBatchWithSize(size), k: d.k, rec: d.rec}
+}
 
 type c21Acct struct {
 	nonce   uint64
@@ -108,6 +166,13 @@ type c21Machine struct {
 	trace      []string
 	orphans    int // cached unreachable nodes whose referrer was persisted (known-finding class)
 
+	rec      *c21Rec
+	inflate  int                 // factor by which the disk batches overstate their size (1 = plain)
+	stepNo   int                 // number of completed steps
+	stale    map[common.Hash]int // node the database itself wrote to disk in step N and has kept cached ever since
+	splitCmt bool                // a Commit went out in several batches
+	splitCap bool                // a Cap went out in several batches
+
 	knownOrphan bool   // vs.Known(c21TestName, c21OrphanClass): tolerate exactly that class
 	excluded    func() // counts one excluded case in the statistics
 	excludedYet bool
@@ -128,9 +193,12 @@ const (
 	c21OrphanClass = "orphan-child-of-persisted-parent"
 )
 
-func c21New(ft c21Fataler, rt *rapid.T, st *vs.S) *c21Machine {
+func c21New(ft c21Fataler, rt *rapid.T, st *vs.S, inflate int) *c21Machine {
+	rec := &c21Rec{}
+	rec.reset()
 	return &c21Machine{
-		rt: rt, ft: ft, db: New(rawdb.NewMemoryDatabase(), nil),
+		rt: rt, ft: ft, db: New(c21Disk{Database: rawdb.NewMemoryDatabase(), k: inflate, rec: rec}, nil),
+		rec: rec, inflate: inflate, stale: map[common.Hash]int{},
 		versions: map[common.Hash]*c21Version{}, refs: map[common.Hash]int{}, committed: map[common.Hash]bool{},
 		storCache: map[string]*reftrie.Result{}, capFlushed: map[common.Hash]bool{},
 		parents: map[common.Hash]map[common.Hash]struct{}{}, indexed: map[common.Hash]bool{},
@@ -553,10 +621,13 @@ func (m *c21Machine) capTo(limit common.StorageSize) {
 			}
 		}
 	}
+	if m.rec.flushes > 1 {
+		m.splitCap = true
+	}
 	if _, after := m.db.Size(); after > limit && len(m.db.dirties) > 0 {
 		m.fatalf("Cap(%v) left %v in memory with %d nodes still cached", limit, after, len(m.db.dirties))
 	}
-	m.trace = append(m.trace, fmt.Sprintf("C[%d/%d flushed=%d]", int(limit), int(size), flushed))
+	m.trace = append(m.trace, fmt.Sprintf("C[%d/%d flushed=%d batches=%d]", int(limit), int(size), flushed, m.rec.flushes))
 }
 
 func (m *c21Machine) opCommit() {
@@ -580,12 +651,15 @@ func (m *c21Machine) commitRoot(r common.Hash) {
 		m.fatalf("Commit(v%d): %v", m.versions[r].seq, err)
 	}
 	m.committed[r] = true
+	if m.rec.flushes > 1 {
+		m.splitCmt = true
+	}
 	for h, blob := range m.versions[r].nodes {
 		if got := rawdb.ReadLegacyTrieNode(m.db.diskdb, h); !bytes.Equal(got, blob) {
 			m.fatalf("Commit(v%d): node %x not persisted correctly (got %d bytes)", m.versions[r].seq, h, len(got))
 		}
 	}
-	m.trace = append(m.trace, fmt.Sprintf("K[v%d]", m.versions[r].seq))
+	m.trace = append(m.trace, fmt.Sprintf("K[v%d batches=%d]", m.versions[r].seq, m.rec.flushes))
 }
 
 // c21Children extracts, with the reference RLP decoder, the hashes a node blob
@@ -654,6 +728,12 @@ func (m *c21Machine) indexParents(nodes map[common.Hash][]byte) {
 // collectable through that parent. Such a node is tolerated if one of its parents
 // is on disk, or is itself a tolerated orphan that still holds a count on it. With
 // nothing on disk this is exactly "no unreachable node stays cached".
+//
+// The tolerance never extends to a node which the database itself wrote to disk
+// (Cap, Commit) and did not uncache in that same step (m.stale): the class is about
+// nodes that legitimately stay cached (or are inserted again) while a REFERRER is
+// persisted; a node that is persisted itself leaves the cache in the same call on
+// the unchanged tree, so its lingering after the last dereference has no such excuse.
 func (m *c21Machine) unexplainedOrphans(reachable map[common.Hash]struct{}) (bad []common.Hash, tolerated int) {
 	orphans := map[common.Hash]bool{}
 	for h := range m.db.dirties {
@@ -668,6 +748,9 @@ func (m *c21Machine) unexplainedOrphans(reachable map[common.Hash]struct{}) (bad
 		changed = false
 		for h, ok := range orphans {
 			if ok {
+				continue
+			}
+			if _, stale := m.stale[h]; stale {
 				continue
 			}
 			for p := range m.parents[h] {
@@ -724,6 +807,22 @@ func (m *c21Machine) explain(h common.Hash) string {
 // check evaluates the invariants after a step.
 func (m *c21Machine) check() {
 	db := m.db
+	// bookkeeping: which nodes did the database write to disk in this step and keep
+	// cached nevertheless, and which of the earlier ones have left the cache since
+	m.stepNo++
+	for h := range m.stale {
+		if _, cached := db.dirties[h]; !cached {
+			delete(m.stale, h)
+		}
+	}
+	for h := range m.rec.written {
+		if _, cached := db.dirties[h]; cached {
+			if _, ok := m.stale[h]; !ok {
+				m.stale[h] = m.stepNo
+			}
+		}
+	}
+	m.rec.reset()
 	// (1) everything reachable from a referenced or committed root is readable
 	reachable := map[common.Hash]struct{}{}
 	for _, r := range m.order {
@@ -759,6 +858,10 @@ func (m *c21Machine) check() {
 				owner = fmt.Sprintf("v%d(refs=%d)", m.versions[r].seq, m.refs[r])
 				break
 			}
+		}
+		if at, stale := m.stale[h]; stale {
+			m.fatalf("garbage: node %x (parents=%d, of %s) is cached and unreachable from every referenced root; the database wrote it to disk itself in step %d (batch size factor %d) without uncaching it and it has been cached ever since, so no dereference collected it (%d such nodes)\n%s",
+				h, db.dirties[h].parents, owner, at, m.inflate, len(bad), m.explain(h))
 		}
 		m.fatalf("garbage: node %x (parents=%d, of %s) is cached, unreachable from every referenced root, and none of the nodes referring to it was ever persisted (%d such nodes)\n%s",
 			h, db.dirties[h].parents, owner, len(bad), m.explain(h))
@@ -825,7 +928,11 @@ func TestVerifC21Machine(t *testing.T) {
 	c21OrphanScenario(t, st)
 	vs.Check(t, 1, func(rt *rapid.T) {
 		c := st.Case()
-		m := c21New(rt, rt, st)
+		// 2 in 5 histories on a plain store (one batch per Cap/Commit); the others on a
+		// store whose batches overstate their size so that Cap and Commit write out
+		// and restart their batch every ~8, ~3 or every single node
+		inflate := rapid.SampledFrom([]int{1, 1, 100, 300, 2000}).Draw(rt, "batchSizeFactor")
+		m := c21New(rt, rt, st, inflate)
 		maxSteps := 28
 		if vs.Thorough() {
 			maxSteps = 45
@@ -874,6 +981,13 @@ func TestVerifC21Machine(t *testing.T) {
 		if m.orphans > 0 {
 			c.Class(c21OrphanClass)
 		}
+		if m.splitCmt {
+			c.Class("commit written in several batches")
+		}
+		if m.splitCap {
+			c.Class("cap written in several batches")
+		}
+		c.Classf("batch size factor %d", inflate)
 		for _, op := range []string{"cap", "commit", "reference"} {
 			if counts[op] > 0 {
 				c.Class("has " + op)
@@ -881,7 +995,7 @@ func TestVerifC21Machine(t *testing.T) {
 		}
 		c.Classf("versions=%d", len(m.order)/4*4)
 		c.Sample(nt, func() any {
-			return map[string]any{"ops": m.trace, "versions": len(m.order), "cached_nodes_at_end": len(m.db.dirties)}
+			return map[string]any{"ops": m.trace, "versions": len(m.order), "cached_nodes_at_end": len(m.db.dirties), "batch_size_factor": inflate}
 		})
 	})
 }
@@ -902,7 +1016,7 @@ func TestVerifC21Machine(t *testing.T) {
 // label unless the class is listed as known, and it is counted as excluded then.
 func c21OrphanScenario(t *testing.T, st *vs.S) {
 	c := st.Case()
-	m := c21New(t, nil, st)
+	m := c21New(t, nil, st, 1)
 	a, slot := c21AcctKeys[0], c21SlotKeys[0]
 	world := func(nonce uint64, val []byte) c21World {
 		return c21World{a: &c21Acct{nonce: nonce, storage: map[string][]byte{slot: val}}}
